@@ -70,9 +70,15 @@ theorem director_stores :
       "store out.URL.Path = turl.Path", "store out.URL.RawPath = turl.RawPath",
       "store out.URL.RawQuery = turl.RawQuery"] := by decide
 
-/-- `responseWriter.WriteHeader` as two statements — `c07.body` (interim responses, every final status of the universe) -/
+/-- `responseWriter.WriteHeader`: it ends with the two statements the model `RW` transcribes — the call is handed on,
+the code recorded — `c07.body` (interim responses, every final status of the universe). What stands in front of them
+since /repo 3162882 (C08's repair: before a final header, fabio's own response headers that `httputil.ReverseProxy`
+cleared with a relayed 1xx are put back where they are missing) skips nothing — obligation `response_writer_forwards` —
+and writes header names only that were in the map before the handler ran and are absent now. -/
 theorem response_writer_write_header :
-    rwWriteHeaderEvents = ["call recv.w.WriteHeader(code)", "store recv.code = code"] := by decide
+    (rwWriteHeaderEvents.drop (rwWriteHeaderEvents.length - 2)) = ["call recv.w.WriteHeader(code)", "store recv.code = code"] ∧
+    (rwWriteHeaderEvents.take (rwWriteHeaderEvents.length - 2)).all
+      (fun e => !(["call recv.w.WriteHeader(code)", "store recv.code = code", "return"].contains e)) = true := by decide
 
 /-- the `Lookup` closure of `main.newHTTPProxy` and the watcher loop, statement by statement (the obligations
 `main_wiring`/`noroute_page_wiring` keep what matters of them) — `c07.serve` drives the same `Table.Lookup` call,
